@@ -3,7 +3,7 @@
 //@ defs: -DXV_STR_EXACT
 //@ flags: --unwind 6
 //@ bounded: list built by <= 3 real slist_append() calls from strings of 0..3 characters
-//@ props: C10 C08
+//@ props: C10 C08 C09
 //@ expect: assertion>=6 canary=2
 #include "_unit.h"
 #include "_list.h"
